@@ -69,4 +69,23 @@ Code(d) ==
 \* the code may be more specific than the documentation demands, never different
 Agree(d) == Documented(d) = "any" \/ Code(d) = Documented(d)
 AllAgree == \A d \in Descs : Agree(d)
+-----------------------------------------------------------------------------
+(* Attributes whose value is an enumeration of the DWARF standard (DWARF 4, 7.5.4 and the sections on  *)
+(* the individual attributes): `value' must yield the named constant of that family for every           *)
+(* enumerator, whatever constant form stores it.                                                        *)
+EnumAttrs == <<
+    [at |-> "language", code |-> 19, family |-> "DW_LANG_"],
+    [at |-> "encoding", code |-> 62, family |-> "DW_ATE_"],
+    [at |-> "accessibility", code |-> 50, family |-> "DW_ACCESS_"],
+    [at |-> "visibility", code |-> 23, family |-> "DW_VIS_"],
+    [at |-> "virtuality", code |-> 76, family |-> "DW_VIRTUALITY_"],
+    [at |-> "identifier_case", code |-> 66, family |-> "DW_ID_"],
+    [at |-> "calling_convention", code |-> 54, family |-> "DW_CC_"],
+    [at |-> "ordering", code |-> 9, family |-> "DW_ORD_"],
+    [at |-> "inline", code |-> 32, family |-> "DW_INL_"],
+    [at |-> "decimal_sign", code |-> 94, family |-> "DW_DS_"],
+    [at |-> "endianity", code |-> 101, family |-> "DW_END_"],
+    [at |-> "defaulted", code |-> 139, family |-> "DW_DEFAULTED_"] >>
+EnumForms == <<"data1", "data2", "udata">>
+
 =============================================================================
